@@ -89,6 +89,24 @@ def gen_cases(rng, tier, info):
             cmds = ["(create 2)", w(nm, [1, 2, 3]), "(read_stream %s)" % X.enc_str(nm), "(has_stream %s)" % X.enc_str(nm)]
             cmds += obs_cmds() + ["(reopen flush)"] + obs_cmds()
             cases.append(Case("len-%d-%s" % (units, kind), cmds))
+    # (b2) overwriting: a stream holds exactly the bytes LAST written under its name, whatever it held before -- sizes on both
+    # sides of the container's 4,096-byte mini-stream cutoff and of the 8 KiB write buffer, shrinking, growing, emptying
+    sizes = [0, 1, 63, 64, 65, 4095, 4096, 4097, 5000, 8192, 8193, 20000]
+    k = 0
+    for first in (5000, 4096, 4095, 20000, 64, 0):
+        cmds = ["(create %d)" % (k % 3)]
+        for second in sizes:
+            nm = "ow%d_%d" % (first, second)
+            cmds.append(w(nm, [(i * 7 + first) % 251 for i in range(first)]))
+            cmds.append(w(nm, [(i * 3 + second) % 241 for i in range(second)]))
+            cmds.append("(read_stream %s)" % X.enc_str(nm))
+        cmds += obs_cmds() + ["(reopen %s)" % ["flush", "into_inner", "drop"][k % 3]] + obs_cmds()
+        # and across a save: write, save, overwrite shorter, save
+        nm = "saved%d" % first
+        cmds += [w(nm, [(i * 5) % 239 for i in range(first)]), "(reopen flush)", w(nm, [1, 2, 3]), "(read_stream %s)" % X.enc_str(nm),
+                 "(reopen into_inner)", "(read_stream %s)" % X.enc_str(nm)] + obs_cmds()
+        cases.append(Case("overwrite-%d" % first, cmds))
+        k += 1
     # (c) random histories
     n = 40 if tier == "quick" else 1200
     names = ["s1", "Bin.dat", "x", "ab", "AB", "a", "A", "中文", "data_1", "-", "a-b", "long.name.with.dots", "été", "Q" * 40, "/x", "a:b", "䡀x", ""]
